@@ -29,8 +29,9 @@ theorem skipWS_ws_append (ws : Bytes) (hws : ws.all isSpace = true) (c : Char) (
     `ts` is any token list (references, strings, comments, parentheses, any other bytes) that is balanced inside one
     outer pair of parentheses; strings follow `GetLiteralStr`'s real rule: any bytes (backslashes and control directives included),
     apostrophes doubled, a single apostrophe after `\\S\\` (`SChar.sect`); the only exclusion is the rule's own ambiguity (an apostrophe pair or
-    the closing apostrophe directly after the three bytes `\\S\\`, `strOkAux`); comments anything
-    but `*`, `/`, `'` — in particular `#`, `#12`, `(`, `)`, `;`, `=`.  After the closing `)` any white space, then `;`.
+    the closing apostrophe directly after the three bytes `\\S\\`, `strOkAux`); comment bodies (`cmtOk`)
+    any bytes without `*/` in the source shape with the raw comment skipper (`commentsRaw`, C10-7; bodies without `*`, `/`, `'` in the
+    old shape) — in particular `#`, `#12`, `(`, `)`, `;`, `=`, apostrophes and `/*`.  After the closing `)` any white space, then `;`.
     The scanner stops right after that `;` and reports the `#n` tokens, in order — nothing from inside strings or comments. -/
 theorem C10_scan_body (ts : List Tok) (hall : ∀ t ∈ ts, t.ok = true) (hseq : seqOk ts = true)
     (hin : innerOk 1 ts = true) (hd : depthAfter 1 ts = 1)
@@ -109,9 +110,10 @@ theorem C10_scan_file (is : List RInst) (hok : ∀ i ∈ is, i.Ok) (ws ws' rest 
 /-- **The scanner on a whole data section, with comments wherever the repaired scanner accepts them** (regenerated flags
     `tokenComments`, `kwSpaceDelim`): every instance is written
     ws [comment ws] `#` ws digits GAP `=` GAP KEYWORD PRE `(` tokens `)` GAP `;` where GAP = white space and any number of comments
-    (bodies without `*`, `/`, `'`, so with `#`, `(`, `)`, `;`, `=`), PRE = white space (tabs and newlines included) and comments;
+    (bodies `cmtOk`: any bytes without `*/` with the raw comment skipper — `#`, `(`, `)`, `;`, `=`, `'`, `/*` included; without `*`, `/`, `'`
+    in the old source shape), PRE = white space (tabs and newlines included) and comments;
     the section ends with GAP `ENDSEC` ws `;`.  `scan` returns exactly the written ids, keywords and references in file order and
-    accepts the section.  Only before `#` the code accepts at most one comment (a second one ends the scan: not generated, see notes). -/
+    accepts the section.  Before `#`: any number of comments in the repaired shape (`leadGap`, C10-5), one in the old. -/
 theorem C10_scan_file_gaps (is : List RInstC) (hok : ∀ i ∈ is, i.Ok) (g : Gap) (hg : gapOk g = true) (ws ws' rest : Bytes)
     (hws : ws.all isSpace = true) (hws' : ws'.all isSpace = true) :
     scan (renderAllC is (endsecG g ws ws' rest)) = .ok (is.map RInstC.entry, true) := by
@@ -835,8 +837,8 @@ theorem C10_index_equals_eager_partial (ops : FloatOps F) (lex : LexCfg) (cfg : 
     and every separator between them; and `SDAI_Application_instance::STEPread` (the eager model's `instSTEPread`, the same function
     the eager reader calls) on exactly that text reads every parameter to the value the eager reader stores for the record
     (`C01_read_record_partial`), with severity NULL, and rests after the `)`.
-    Excluded: as in `C10_index_equals_eager_partial` (aggregate and typed-SELECT parameters, lower-case keywords, `#0`, bytes ≥ 256,
-    the source before `fixes/C10-7`); the reference look-up `env.lookup` is the same function on both sides — in the code the lazy
+    Excluded: as in `C10_index_equals_eager_partial` (aggregate and typed-SELECT parameters, lower-case keywords, `#0`, ids above INT_MAX,
+    bytes ≥ 256, the source before `fixes/C10-7`) and entities without attributes (`hne`: an empty parameter list `()`); the reference look-up `env.lookup` is the same function on both sides — in the code the lazy
     side answers it through `instMgrAdapter::FindFileId` → `loadInstance` (`C10_load_any_order`: resolved exactly as the eager
     reader resolves them). -/
 theorem C10_materialise_partial (hraw : commentsRaw = true) (env : Env F) (strict : Bool) (hcri : env.lex.criSkipsComments = true)
